@@ -19,6 +19,7 @@ import (
 	"strconv"
 	"strings"
 	"sync"
+	"sync/atomic"
 	"time"
 
 	"github.com/vimeo/dials"
@@ -81,6 +82,9 @@ type actor struct {
 }
 
 func (a *actor) park(point, data string) {
+	if a.run != nil && a.run.free.Load() {
+		return
+	}
 	a.mu.Lock()
 	a.parked, a.point, a.data = true, point, data
 	a.mu.Unlock()
@@ -269,6 +273,7 @@ type rtRun struct {
 	curUpdate    *rtUpdate
 	submits      []rtSubmit
 	maxQueue     int
+	free         atomic.Bool
 }
 
 type rtCbGot struct {
